@@ -64,9 +64,21 @@ CHECKS = {
                 "insert, extend, drain) as documented; rayon position_first returns the least index.",
         "technique": "Coq proof (frame + effect theorems per mutator, for all structures) + differential correspondence on operation histories",
     },
+    "C09": {
+        "text": "Every read-only accessor of PDB / Model / Chain / Residue / Conformer (81 methods incl. the parallel twins) is translated from the current "
+                "Rust source into Gallina on every run (T3) and proved equal to its nested-traversal specification for every structure (84 theorems: counts = "
+                "length of the traversal, plain PDB counts = first model, totals = all models, flat iterators = nested flat_map, n-th accessors = nth_error, "
+                "atoms-with-hierarchy = nested tuples whose ancestors contain the atom). A wrong delegate in any one-liner breaks its theorem with no "
+                "sampling involved. Mutable, reversed, indexed and parallel variants (which the translator does not cover) are tied by correspondence under "
+                "thread pools 1..16.",
+        "design_ref": "DESIGN.md section 6 C09",
+        "note": "Trusted: Coq kernel, the T3 translator (fragment-checked, fails closed), extraction, harness; rayon's contract; the raw-pointer tuples' "
+                "memory safety is not modelled.",
+        "technique": "Coq proof over translator-regenerated accessor definitions + differential correspondence (mutable / parallel variants)",
+    },
 }
 
 NOT_APPLICABLE = [
     {"property_id": p, "reason": PENDING}
-    for p in ["C01", "C02", "C03", "C04", "C05", "C06", "C09", "C13", "C14", "C15", "C16", "C17", "C18"]
+    for p in ["C01", "C02", "C03", "C04", "C05", "C06", "C13", "C14", "C15", "C16", "C17", "C18"]
 ]
